@@ -1794,11 +1794,12 @@ def run(ctx):
     # ---------------- sequential ----------------
     seq_cases = []
     cdir = os.path.join(ctx.verif, 'corpus', 'C05')
-    conc_corpus, builtin_corpus, follow_corpus = [], [], []
+    conc_corpus, builtin_corpus, follow_corpus, tcp_corpus = [], [], [], []
     if os.path.isdir(cdir):
         for fn in sorted(os.listdir(cdir)):
             c = json.load(open(os.path.join(cdir, fn)))
-            {'seq': seq_cases, 'conc': conc_corpus, 'builtin': builtin_corpus, 'follow': follow_corpus}[c['kind']].append(c['case'])
+            {'seq': seq_cases, 'conc': conc_corpus, 'builtin': builtin_corpus, 'follow': follow_corpus,
+             'tcp': tcp_corpus}[c['kind']].append(c['case'])
     for _ in range(ctx.budget(3000, 20000)):
         seq_cases.append(gen_seq(rng, big))
     shrunk = 0
@@ -1876,6 +1877,61 @@ def run(ctx):
                                        'what': f'history on a {ps["kind"]} parameter (update_unchanged={ps["uu"]}): step '
                                                f'{bad[2]} breaks "{bad[3]}" for connection {bad[0] + 1}: '
                                                f'steps={norm_steps(small["ops"])}',
+                                       'detail': {'original': case}})
+
+    # ---------------- the transport: connections = real TCP handlers over sockets whose peer stops reading ----------------
+    tcases = list(tcp_corpus)
+    for _ in range(ctx.budget(800, 8000)):
+        tcases.append(gen_tcp(rng, big))
+    tshrunk = 0
+    for start in range(0, len(tcases), CH):
+        chunk = tcases[start:start + CH]
+        runs = [impl_seq(case, errs, tables) for case in chunk]
+        reqs, pos = [], []
+        for r in runs:
+            r['jreqs'] = judge_reqs_tcp(r)
+            pos.append(len(reqs))
+            reqs.append(r['req'])
+            reqs += [q[3] for q in r['jreqs']]
+        answers = ctx.driver.batch(reqs)
+        for case, r, at in zip(chunk, runs, pos):
+            ans, jds = answers[at], answers[at + 1: at + 1 + len(r['jreqs'])]
+            if any('driver_error' in a for a in [ans] + jds):
+                raise RuntimeError(f'driver error: {ans} {jds} {json.dumps(r["req"])[:400]}')
+            res.evaluations += 1
+            res.traces += 1
+            ps = case['params'][0]
+            faults = case['tcp']['faults']
+            res.count('tcp.faults=%d' % len(faults))
+            for f in faults:
+                res.count('tcp.fault=' + f[1] + '/' + f[4] + '/' + ('nothing' if f[3] == 0 else 'part') + ' written')
+            last = r['outs'][-1]['tcp']
+            nclosed = sum(1 for st in last if not st['open'])
+            res.count('tcp.connections-closed-by-the-node=%d of %d' % (nclosed, len(last)))
+            res.count('tcp.peer-reads-again=' + ('yes' if case['tcp']['back'] else 'no'))
+            nmsg = sum(len(per) for o in r['outs'] for per in o['recv'])
+            res.count('tcp.messages-received=' + ('0' if nmsg == 0 else '1-5' if nmsg < 6 else '6+'))
+            if nclosed and nmsg > 2 and any(st['open'] for st in last):
+                res.nontriv(case)
+            if ctx.model_ok:
+                diff = compare_tcp(r, ans)
+                if diff:
+                    res.disagreements.append({'case': {'kind': 'tcp', 'case': case}, 'model': diff, 'impl': 'see replay'})
+            bad0 = first_bad(r['jreqs'], jds, r['outs'])
+            if bad0 is not None:
+                small = case
+                if tshrunk < 3:
+                    tshrunk += 1
+                    ops = ddmin(r['steps'], lambda o, case=case: tcp_fails(ctx, dict(case, ops=o), errs, tables))
+                    small = dict(case, ops=ops)
+                    keep = ddmin(small['tcp']['faults'], lambda f, small=small: tcp_fails(
+                        ctx, dict(small, tcp=dict(small['tcp'], faults=f)), errs, tables))
+                    small = dict(small, tcp=dict(small['tcp'], faults=keep))
+                bad = (tcp_fails(ctx, small, errs, tables) if small is not case else None) or bad0
+                res.violations.append({'sig': 'C05:tcp:' + bad[3], 'case': {'kind': 'tcp', 'case': small},
+                                       'what': f'history on a {ps["kind"]} parameter, connections over TCP handlers, sendall failing '
+                                               f'as scripted {small["tcp"]}: step {bad[2]} breaks "{bad[3]}" for connection '
+                                               f'{bad[0] + 1}: steps={norm_steps(small["ops"])}',
                                        'detail': {'original': case}})
 
     # ---------------- followers attached with registerCallbacks; explicit time stamps ----------------
@@ -2055,7 +2111,7 @@ def replay(ctx, rp):
     errs = error_pool()
     tables = _tables(ctx)
     case = rp['case']
-    if 'kind' not in case and rp.get('kind') in ('seq', 'builtin', 'conc', 'follow'):
+    if 'kind' not in case and rp.get('kind') in ('seq', 'builtin', 'conc', 'follow', 'tcp'):
         case = {'kind': rp['kind'], 'case': case}      # a corpus file
     if case['kind'] == 'seq':
         r = impl_seq(case['case'], errs, tables)
@@ -2065,6 +2121,16 @@ def replay(ctx, rp):
         for i, o in enumerate(r['outs']):
             print(f'  step {o["step"]}: {r["fsteps"][i]} -> per connection {o["recv"]} cache {o["cache_x"]}@{o["ts"]}')
         print('model :', compare_seq(r, answers[0]) or 'agrees with the implementation')
+        print('judge :', [(f'conn {ci + 1}', f'from step {first}', jd) for (ci, _, first, _), jd in zip(jreqs, answers[1:])])
+        return 0 if all(a.get('bad') is None for a in answers[1:]) else 1
+    if case['kind'] == 'tcp':
+        r = impl_seq(case['case'], errs, tables)
+        jreqs = judge_reqs_tcp(r)
+        answers = ctx.driver.batch([r['req']] + [q[3] for q in jreqs])
+        print('case  :', json.dumps(case['case']))
+        for i, o in enumerate(r['outs']):
+            print(f'  step {o["step"]}: {r["fsteps"][i]} -> per connection received {o["recv"]} status {o["tcp"]} cache {o["cache_x"]}@{o["ts"]}')
+        print('model :', compare_tcp(r, answers[0]) or 'agrees with the implementation')
         print('judge :', [(f'conn {ci + 1}', f'from step {first}', jd) for (ci, _, first, _), jd in zip(jreqs, answers[1:])])
         return 0 if all(a.get('bad') is None for a in answers[1:]) else 1
     if case['kind'] == 'follow':
